@@ -817,6 +817,10 @@ def include_family(ctx, prop_id, checks, nontrivial, rule, extra=None, modes=(('
                 if sig and key == 'unjustified' and all(final_drop_signature(c, i) for i in got.split(',')) and known_open(prop_id, sig):
                     kf[sig] += 1
                     continue
+                if key == 'unjustified' and all(final_drop_signature(c, i) or up_shadow_signature(c, i) for i in got.split(',')) \
+                        and known_open(prop_id, 'unjustified_upshadow') and (known_open(prop_id, sig) or all(up_shadow_signature(c, i) for i in got.split(','))):
+                    kf['unjustified_upshadow'] += 1
+                    continue
                 ctx.violations.append(('%s: %s (case %s)' % (msg, got, c.key), write_replay(ctx, 'case_%s.txt' % c.key, c.text()), True))
         for key, sig, what in ((k, s, m) for k, _, m, s in checks if s):
             got = vv.get(key + '_' + sig.split('_')[-1]) if False else None
@@ -884,6 +888,31 @@ def final_drop_signature(c, fid):
     ins = {int(rm.get(str(t), t)) for t in ints(g['in'])}
     changed = any(a != b for a, b in rm.items())
     return changed and not (ins & outs)
+
+
+def up_shadow_signature(c, fid):
+    """known finding F13: provider `fid` is a wrapper; every type it returns is returned again, without being received, by
+    an included wrapper listed before it (nearer to the receiver), and nobody takes what it hands to inner()"""
+    fs = c.s7_funcs()
+    idx = next((i for i, x in enumerate(fs) if x['id'] == fid), None)
+    if idx is None or fs[idx]['class'] != 'wrapper-func':
+        return False
+    f = fs[idx]
+    rets = [t for t in f['ret'].split(',') if t != '-']
+    if not rets:
+        return False
+    for t in rets:
+        if not any(g['inc'] == '1' and g['class'] == 'wrapper-func' and t in g['ret'].split(',') and t not in g['recv'].split(',')
+                   for g in fs[:idx]):
+            return False
+    outs = {t for t in f['out'].split(',') if t != '-'}
+    for g in fs[idx + 1:]:
+        if g['inc'] != '1':
+            continue
+        rm = dict(kvp.split('>') for kvp in (g['drm'].split(',') if g['drm'] != '-' else []))
+        if {rm.get(t, t) for t in g['in'].split(',') if t != '-'} & outs:
+            return False
+    return True
 
 
 @prop('C03')
